@@ -1376,7 +1376,7 @@ func Prop() *core.Prop {
 		Cases: func(tier string) int {
 			if tier == "thorough" {
 				in, rn := enumSizes()
-				return in + rn + 500000
+				return in + rn + 5000000
 			}
 			return 4000
 		},
